@@ -1686,6 +1686,13 @@ def model_requests(case, obs):
     # slide with its side effect on the element dicts (`_active_label`)
     for sm in obs.get("slides_m", []):
         reqs.append({"m": "C14.slideM", "elems": sm["elems"], "ctx": sm["ctx0"], "head": sm["head"]})
+    # the source-level reference of next_step_is_flow_statement_with_do (V1Ref.followAllK) on every prefix, for
+    # programs in the theorem's setting: ONE dialog flow (default priority) + subflows
+    mains = [f for f in case["flows"] if not f["sub"]]
+    if len(mains) == 1 and all(f.get("prio") is None for f in case["flows"]):
+        reqs.append({"m": "C14.follow", "id": mains[0]["name"], "prog": prog_for_model(mains[0]["body"]),
+                     "lib": [{"name": f["name"], "prog": prog_for_model(f["body"])} for f in case["flows"] if f["sub"]],
+                     "history": obs["history"]})
     return reqs
 
 
@@ -1703,7 +1710,9 @@ def compare(case, obs, mouts):
     slides = mouts[1 + nf:1 + nf + ns]
     ng = len(obs.get("gen", []))
     gens = mouts[1 + nf + ns:1 + nf + ns + ng]
-    slides_m = mouts[1 + nf + ns + ng:]
+    nsm = len(obs.get("slides_m", []))
+    slides_m = mouts[1 + nf + ns + ng:1 + nf + ns + ng + nsm]
+    follow = mouts[1 + nf + ns + ng + nsm:]
     # compiler tie: parser output == compile(AST) == comp none (AST)
     for f, c, mc in zip(case["flows"], comps, obs["mcfgs"]):
         if c["compile"] != mc["elems"]:
@@ -1746,6 +1755,14 @@ def compare(case, obs, mouts):
             return f"slide+labels({sm['flow']}, head={sm['head']}): impl {o} model {m}"
         if o["res"] != "oof" and o.get("marks") != m.get("marks"):
             return f"slide+labels({sm['flow']}, head={sm['head']}): `_active_label` written to {o.get('marks')}, model {m.get('marks')}"
+    # the theorem's source-level reference (followAllK) against the implementation, wherever it is defined
+    if follow and not any(obs.get("zombie", [])):
+        for k, (a, b) in enumerate(zip(obs["used"], follow[0]["res"])):
+            if b is None or "exc" in a:
+                continue
+            bb = [([d[0], sorted(d[1])] if d[0] == "ctx" else d) for d in b["dec"]]
+            if a["ok"] != bb:
+                return f"followAllK (reference of next_step_is_flow_statement_with_do) prefix {k}: impl {a['ok']} reference {bb}"
     return None
 
 
@@ -2021,6 +2038,8 @@ def tags(case, obs):
         t.append("gen:events%d" % (max(len(g["new"]) for g in obs["gen"]) // 5 * 5))
         for st in sorted({x.get("status", "success") + ("+cu" if x.get("cu") else "") for x in obs.get("gen_script", [])}):
             t.append("gen:act:" + st)
+    if obs.get("follow_depth") is not None:
+        t.append("followK:depth%d" % obs["follow_depth"])
     if obs.get("slides_m"):
         marks = [m for sm in obs["slides_m"] for m in sm["out"].get("marks", [])]
         t.append("labels:" + ("written" if any(m not in (None, "OLD") for m in marks) else "none-written"))
